@@ -388,3 +388,86 @@ def r4(chk, prog):
     else:
         chk.proven(rid, f.name, sig, f.entry.term.locstr(), "%d depths: the caller's limit reaches the constructor (default %s for -1)" % (n, default))
     chk.floor(rid, n, 10, "depth values evaluated")
+    _r4_default_users(chk, prog, rid, default)
+
+
+def _r4_default_users(chk, prog, rid, default):
+    """entry points without a depth argument (json_tokener_parse, json_tokener_parse_verbose, json_object_from_fd ...) create their
+    parser with the default limit, whatever text they are given"""
+    from ..strpe import StrPE
+
+    class TextDepthPE(StrPE):
+        def should_inline(self, g, instr):
+            return False
+
+        def init_mem(self, state, base, path, t):
+            if base == "text":
+                el, fl = pe.fields_of(path)
+                if not fl and isinstance(el, int) and 0 <= el <= len(self.text):
+                    b = (self.text + b"\0")[el]
+                    return pe.C(b if b < 128 else b - 256)
+            return pe.TOP
+
+        def call_model(self, state, frame, i, args):
+            nm = i.callee
+            if nm == "json_tokener_new_ex":
+                self.created.append(args[0][1] if pe.is_const(args[0]) else None)
+                return "STOP"
+            if nm == "json_tokener_new":
+                self.created.append("default")
+                return "STOP"
+            if nm == "__errno_location":
+                return ("ptr", "errno", ())
+            return self.libc_string_model(state, frame, i, args)
+    # the default limit itself: what json_tokener_new passes on
+    fnew = prog.fn("json_tokener_new")
+    dflt = default
+    if fnew is not None and not fnew.is_decl:
+        h = TextDepthPE(prog, max_leaves=20, max_steps=5000)
+        h.text, h.created = b"", []
+        try:
+            h.run(fnew, [], pe.State())
+        except Exception:
+            pass
+        if len(h.created) == 1 and isinstance(h.created[0], int):
+            dflt = h.created[0]
+    texts = [b"", b"1", b"[[[", b"[[[[1", b"[{\"a\":[{\"a\":1,", b"[" * 40, b" " * 70 + b"[1]"]
+    n = 0
+    for f in prog.all_functions():
+        if f.is_decl or f.internal or f.module.srcname not in ("json_tokener.c", "json_util.c") or f.name in ("json_tokener_new", "json_tokener_new_ex"):
+            continue
+        creates = [i for i in f.instrs() if i.op == "call" and i.callee in ("json_tokener_new", "json_tokener_new_ex")]
+        if not creates or any(nm and "depth" in nm for t, nm in f.params if t.startswith("i")):
+            continue
+        if not any(t == "i8*" for t, _ in f.params):
+            continue
+        chk.touched(f)
+        n += 1
+        bad = und = None
+        for tx in texts:
+            h = TextDepthPE(prog, max_leaves=50, max_steps=20000)
+            h.text, h.created = tx, []
+            args = []
+            for t, nm in f.params:
+                args.append(("ptr", "text", ()) if t == "i8*" and ("ptr", "text", ()) not in args else (("ptr", "arg_" + (nm or "x"), ()) if t.endswith("*") else pe.TOP))
+            try:
+                h.run(f, args, pe.State())
+            except Exception as e:
+                und = und or "%r: %s" % (tx[:12], e)
+                continue
+            if not h.created:
+                und = und or "%r: no parser is created on the evaluated path" % tx[:12]
+                continue
+            for v in h.created:
+                if v is None:
+                    und = und or "%r: the limit handed to the constructor is not concrete" % tx[:12]
+                elif v != "default" and v != dflt and bad is None:
+                    bad = "for the text %r the parser is created with the limit %s, not the default %s: the nesting limit that is enforced " \
+                          "depends on the input" % (tx[:16].decode(), v, dflt)
+        sig = "default limit in " + f.name
+        if bad:
+            chk.refuted(rid, f.name, sig, creates[0].locstr(), bad)
+        elif und:
+            chk.undecided(rid, f.name, sig, creates[0].locstr(), und)
+        else:
+            chk.proven(rid, f.name, sig, creates[0].locstr(), "default limit (%s) for every text tried" % dflt)
